@@ -293,11 +293,13 @@ func termOf(err error) string {
 
 const oracleMaxRows = 1 << 16
 
-// tokenize makes, with a plain gob.Decoder, the Decode calls codec.go makes on
-// this stream as long as the structure-determining tokens (length, codec flag)
-// are those of orig (nil: follow the stream itself), and records each result.
-// term is gob's failure at the next call, or "SStop": nothing is known beyond.
-func tokenize(stream []byte, sch []string, orig []Tok) (toks []Tok, term string) {
+// tokenize makes, with a plain gob.Decoder, exactly the Decode calls that
+// decodingReader makes on this stream (batch length, then per column the codec
+// flag and either one value per row from the custom codec or the gob-encoded
+// column, then the checksum) and records each result. term is gob's failure at
+// the next call, or "SStop": the reader asks for nothing more (it returns an
+// error at this point) or nothing is known beyond.
+func tokenize(stream []byte, sch []string) (toks []Tok, term string) {
 	defer func() {
 		if r := recover(); r != nil {
 			term = "SStop" // gob panicked on garbage: no information
@@ -306,29 +308,23 @@ func tokenize(stream []byte, sch []string, orig []Tok) (toks []Tok, term string)
 	cr := &countReader{b: stream}
 	dec := gob.NewDecoder(cr)
 	last := 0
-	push := func(t Tok) bool { // false: structure differs from orig
+	push := func(t Tok) {
 		t.Used = cr.pos - last
 		last = cr.pos
 		toks = append(toks, t)
-		if orig == nil {
-			return true
-		}
-		i := len(toks) - 1
-		if i >= len(orig) {
-			return false
-		}
-		if t.K == "len" || t.K == "flag" {
-			return orig[i].K == t.K && orig[i].N == t.N && orig[i].B == t.B
-		}
-		return orig[i].K == t.K
 	}
 	for {
 		var n int
 		if err := dec.Decode(&n); err != nil {
 			return toks, termOf(err)
 		}
-		if !push(Tok{K: "len", N: int64(n)}) || n < 0 || n > oracleMaxRows {
+		if n > oracleMaxRows {
+			// not even given to the model: it would allocate that many rows, as the code does
 			return toks, "SStop"
+		}
+		push(Tok{K: "len", N: int64(n)})
+		if n < 0 {
+			return toks, "SStop" // Read returns "invalid batch length"
 		}
 		for _, name := range sch {
 			t := ct(name)
@@ -336,8 +332,9 @@ func tokenize(stream []byte, sch []string, orig []Tok) (toks []Tok, term string)
 			if err := dec.Decode(&b); err != nil {
 				return toks, termOf(err)
 			}
-			if !push(Tok{K: "flag", B: b}) || b != (t.kind == "KCodec") {
-				return toks, "SStop"
+			push(Tok{K: "flag", B: b})
+			if b && t.kind != "KCodec" {
+				return toks, "SStop" // decode returns "no codec available"
 			}
 			if b {
 				for k := 0; k < n; k++ {
@@ -345,9 +342,7 @@ func tokenize(stream []byte, sch []string, orig []Tok) (toks []Tok, term string)
 					if err := dec.Decode(&dv); err != nil {
 						return toks, termOf(err)
 					}
-					if !push(Tok{K: "val", Data: [][]int64{{dv}}}) {
-						return toks, "SStop"
-					}
+					push(Tok{K: "val", Data: [][]int64{{dv}}})
 				}
 				continue
 			}
@@ -356,24 +351,23 @@ func tokenize(stream []byte, sch []string, orig []Tok) (toks []Tok, term string)
 				return toks, termOf(err)
 			}
 			sl := pv.Elem()
-			if sl.Len() != n {
+			if sl.Len() > oracleMaxRows {
 				return toks, "SStop"
 			}
-			data := make([][]int64, n)
+			data := make([][]int64, sl.Len())
 			for i := range data {
 				data[i] = t.toZ(sl.Index(i))
 			}
-			if !push(Tok{K: "col", Data: data}) {
-				return toks, "SStop"
+			push(Tok{K: "col", Data: data})
+			if sl.Len() != n {
+				return toks, "SStop" // decode returns "column length does not match batch length"
 			}
 		}
 		var c uint32
 		if err := dec.Decode(&c); err != nil {
 			return toks, termOf(err)
 		}
-		if !push(Tok{K: "crc", N: int64(c)}) {
-			return toks, "SStop"
-		}
+		push(Tok{K: "crc", N: int64(c)})
 	}
 }
 
@@ -410,7 +404,7 @@ func errClass(err error) string {
 	case err == io.ErrUnexpectedEOF:
 		return "EUnexpected"
 	case strings.Contains(err.Error(), "invalid batch length"):
-		return "EBadLen" // only with proposed fix 1 applied
+		return "EBadLen" // errors.Integrity: negative batch length
 	case errors.Is(errors.Integrity, err):
 		return "EIntegrity"
 	case strings.Contains(err.Error(), "no codec available"):
@@ -628,7 +622,7 @@ func buildStream(sch []string, batches []Batch) *streamInfo {
 	if err != nil {
 		fatal("encoding failed: %v", err)
 	}
-	toks, term := tokenize(bs, sch, nil)
+	toks, term := tokenize(bs, sch)
 	if term != "SIoEOF" {
 		fatal("oracle cannot re-read an undamaged stream: %s after %d tokens", term, len(toks))
 	}
@@ -874,7 +868,7 @@ func classify(s *streamInfo, d Damage, res []Res, crash string) (outcome, sig st
 
 func damageCase(s *streamInfo, d Damage, dests []int) (vf.Case, string) {
 	dam := applyDamage(s.bytes, d)
-	otoks, term := tokenize(dam, s.sch, s.toks)
+	otoks, term := tokenize(dam, s.sch)
 	keep := 0
 	for keep < len(otoks) && keep < len(s.toks) && otoks[keep].same(s.toks[keep]) {
 		keep++
@@ -1027,7 +1021,7 @@ func main() {
 		gr := root.Split()
 		gridSchemas := [][]string{{"int"}, {"pair", "vint"}}
 		if thorough {
-			gridSchemas = schemas
+			gridSchemas = [][]string{{"int"}, {"string"}, {"pair"}, {"vint"}, {"string", "pair", "vint"}}
 		}
 		for si, sch := range gridSchemas {
 			for bi, bn := range gridBatch {
@@ -1044,7 +1038,7 @@ func main() {
 		// ---- round trips: random
 		nr := 60
 		if thorough {
-			nr = 1200
+			nr = 600
 		}
 		nr *= opts.Scale
 		rr := root.Split()
@@ -1119,6 +1113,16 @@ func main() {
 		// the stream of the design probe: one batch [1,2,3] of one int column (36 bytes)
 		probe := buildStream([]string{"int"}, []Batch{{{{1}, {2}, {3}}}})
 		sweep(probe, []int{4})
+		// crafted 9-byte bursts over the length message of the probe stream: the batch length
+		// becomes a multi-byte gob integer n (the next message is swallowed as its bytes)
+		for _, n := range []uint64{1 << 20, 1 << 26, 1 << 36} {
+			want := []byte{8, 4, 0, 0xFB, byte(n >> 31), byte(n >> 23), byte(n >> 15), byte(n >> 7), byte(n << 1)}
+			xs := make([]int, len(want))
+			for i := range want {
+				xs[i] = int(want[i] ^ probe.bytes[i])
+			}
+			addDamage(probe, Damage{K: "burst", Pos: 0, Xors: xs}, []int{4})
+		}
 		small := []struct {
 			sch []string
 			bs  []Batch
@@ -1145,9 +1149,13 @@ func main() {
 		for i := 0; i < nbig; i++ {
 			r := dr.Split()
 			sch := schemas[(i*2+6)%len(schemas)]
+			maxRows := 12
+			if thorough && i < 3 {
+				maxRows = 12 + 14*i // streams of a few hundred bytes up to about 2 kB
+			}
 			var bs []Batch
 			for k := 0; k < r.Range(2, 4); k++ {
-				bs = append(bs, genBatch(r, sch, r.Range(0, 12)))
+				bs = append(bs, genBatch(r, sch, r.Range(0, maxRows)))
 			}
 			s := buildStream(sch, bs)
 			if thorough && len(s.bytes) <= 2048 && i < 3 {
